@@ -38,22 +38,24 @@ RECURSIVE LeavesOf(_)
 LeavesOf(x) == (IF x.t \in DOMAIN LitKind THEN {LitKind[x.t]} ELSE IF x.t = "Id" THEN {"id"} ELSE {})
                \cup UNION {LeavesOf(x.a[k]) : k \in 1..Len(x.a)}
 
+(* TLC evaluates a LET definition again at every use: the index and the types read are bound by \E over a one-element set,
+   which evaluates them once (the skipper alone is linear in the section; per use it would make the step quadratic) *)
 TrSection ==
   /\ IsEvent("Section")
-  /\ LET b   == Ev.bytes
-         ix  == Index(b)
-         pos == Append(ix[1], ix[2])
-         rd  == [k \in 1..Len(ix[1]) |-> RdTForm(b, ix[1][k])]
-         lv  == UNION {LeavesOf(rd[k][1].x) : k \in {j \in 1..Len(rd) : rd[j][1].tag \in TfAbSyn}}
-               \cup UNION {UNION {UNION {LeavesOf(rd[k][1].conds[i][j]) : j \in 1..Len(rd[k][1].conds[i])} : i \in 1..Len(rd[k][1].conds)}
-                           : k \in 1..Len(rd)}
-     IN /\ Report({w \in {"the skipping reader does not arrive at the end of the section", "reader and skipper disagree on the length of a type"} :
-                     \/ w = "the skipping reader does not arrive at the end of the section" /\ ix[2] # Len(b) + 1
-                     \/ w = "reader and skipper disagree on the length of a type"
-                          /\ ix[2] = Len(b) + 1 /\ \E k \in 1..Len(rd) : rd[k][2] # pos[k + 1]})
-        /\ PrintT("LEAVES " \o ToJson([l |-> l, lib |-> Ev.lib, types |-> Len(rd), leaves |-> lv]))
-        \* the recorded section as a state of the machine of SefoCodec.tla: the types as read are the section that was written
-        /\ buf' = b /\ idx' = ix /\ got' = rd /\ sec' = [k \in 1..Len(rd) |-> rd[k][1]] /\ phase' = "fetched"
+  /\ \E ix \in {Index(Ev.bytes)} :
+     \E rd \in {FoldLeft(LAMBDA acc, k : Append(acc, RdTForm(Ev.bytes, ix[1][k])), <<>>, Ix(Len(ix[1])))} :
+       LET b   == Ev.bytes
+           pos == Append(ix[1], ix[2])
+           lv  == UNION {LeavesOf(rd[k][1].x) : k \in {j \in 1..Len(rd) : rd[j][1].tag \in TfAbSyn}}
+                  \cup UNION {UNION {UNION {LeavesOf(rd[k][1].conds[i][j]) : j \in 1..Len(rd[k][1].conds[i])} : i \in 1..Len(rd[k][1].conds)}
+                              : k \in 1..Len(rd)}
+       IN /\ Report({w \in {"the skipping reader does not arrive at the end of the section", "reader and skipper disagree on the length of a type"} :
+                       \/ w = "the skipping reader does not arrive at the end of the section" /\ ix[2] # Len(b) + 1
+                       \/ w = "reader and skipper disagree on the length of a type"
+                            /\ ix[2] = Len(b) + 1 /\ \E k \in 1..Len(rd) : rd[k][2] # pos[k + 1]})
+          /\ PrintT("LEAVES " \o ToJson([l |-> l, lib |-> Ev.lib, types |-> Len(rd), leaves |-> lv]))
+          \* the recorded section as a state of the machine of SefoCodec.tla: the types as read are the section that was written
+          /\ buf' = b /\ idx' = ix /\ got' = rd /\ sec' = [k \in 1..Len(rd) |-> rd[k][1]] /\ phase' = "fetched"
   /\ l' = l + 1
 
 Finish ==
